@@ -178,7 +178,8 @@ func appendInt(p *thrift.BinaryProtocol, typ thrift.Type, out *[]byte) error {
 		if err != nil {
 			return err
 		}
-		*out = json.EncodeInt64(*out, int64(i))
+		// a thrift byte is signed
+		*out = json.EncodeInt64(*out, int64(int8(i)))
 	case thrift.I16:
 		i, err := p.ReadI16()
 		if err != nil {
